@@ -16,8 +16,10 @@ deriving Repr, DecidableEq
 def truncate0 (f : F) : F := { f with bytes := [] }
 def seek0 (f : F) : F := { f with pos := 0 }
 
-/-- write(2): overwrite / extend at the position; a hole is NUL-filled -/
+/-- write(2): overwrite / extend at the position; a hole is NUL-filled.  A write of no bytes does nothing
+    (in particular it does not extend the file up to a position beyond its end). -/
 def write (f : F) (w : List Byte) : F :=
+  if w.isEmpty then f else
   let base := if f.pos ≤ f.bytes.length then f.bytes else f.bytes ++ List.replicate (f.pos - f.bytes.length) 0
   { bytes := base.take f.pos ++ w ++ base.drop (f.pos + w.length), pos := f.pos + w.length }
 
